@@ -92,6 +92,10 @@ structure Holder where
   -- `_arena` (`Arena(16 KiB, static_arena_memory)`): Model/Arena.lean, the line-by-line model of arena.cpp (C18);
   -- request sizes below are nominal 64-bit object sizes - what matters here is *that* the arena is used and reset
   arena : Arena.State := Arena.init 16384 0
+  -- base address: `_base_address` (what emitters see; `relocate_to_base` overwrites it) and the value given to `init()`
+  -- (`_init_base_address`, fixes/C16-3.patch), which `reinit()` restores
+  base : Option Nat := none
+  initBase : Option Nat := none
   deriving DecidableEq, Repr
 
 /-- `BaseEmitter` + `BaseAssembler` / `BaseBuilder` / `BaseCompiler` members of one emitter -/
@@ -263,15 +267,15 @@ def reinitAll (es : List Emitter) (att : List Nat) : List Emitter := applyAll Em
 def settingsAll (lg : Bool) (es : List Emitter) (att : List Nat) : List Emitter := applyAll (Emitter.settingsUpdated lg) es att
 
 /-- `CodeHolder::init` -/
-def World.init (w : World) (a : Arch) : World × String :=
+def World.init (w : World) (a : Arch) (b : Option Nat := none) : World × String :=
   if w.h.arch.isSome then (w, "AlreadyInitialized")
-  else ({ w with h := ({ w.h with arch := some a, secs := [textSection] } : Holder).alloc 64 }, "ok")
+  else ({ w with h := ({ w.h with arch := some a, secs := [textSection], base := b, initBase := b } : Holder).alloc 64 }, "ok")
 
 /-- `CodeHolder::reset` -/
 def World.reset (w : World) (hard : Bool) : World :=
   if w.h.arch.isNone then w
   else
-    { h := { (w.h.resetContainers hard) with arch := none, logger := false, attached := [] }
+    { h := { (w.h.resetContainers hard) with arch := none, logger := false, attached := [], base := none, initBase := none }
       es := detachAll w.es w.h.attached }
 
 /-- `CodeHolder::reinit` -/
@@ -279,7 +283,7 @@ def World.reinit (w : World) : World × String :=
   if w.h.arch.isNone then (w, "NotInitialized")
   else
     let h := w.h.resetContainers false
-    ({ h := ({ h with secs := [textSection] } : Holder).alloc 64, es := reinitAll w.es w.h.attached }, "ok")
+    ({ h := ({ h with secs := [textSection], base := h.initBase } : Holder).alloc 64, es := reinitAll w.es w.h.attached }, "ok")
 
 /-- `CodeHolder::attach` -/
 def World.attach (w : World) (i : Nat) : World × String :=
@@ -512,6 +516,9 @@ def serialize (h : Holder) (c : Cur) : List Node → Holder × Cur × String
 inductive Op where
   | world (a64 : Bool) (staticSize : Nat)
   | init (a : Arch)
+  | initb (a : Arch) (base : Nat)      -- `init(environment, base_address)`
+  | relocate (base : Nat)             -- `relocate_to_base(base)` (also inside `JitRuntime::add`): only its effect on the holder's
+                                      -- configuration is modelled (patching the section buffers is property C04's)
   | reset (hard : Bool)
   | reinit
   | attach (i : Nat)
@@ -611,6 +618,9 @@ def World.step (w : World) (op : Op) : World × String :=
   match op with
   | .world a64 st => ((if a64 then World.freshA64 else World.fresh).withArena st, "ok")
   | .init a => w.init a
+  | .initb a b => w.init a (some b)
+  | .relocate b =>
+    if w.h.arch.isNone then (w, "unmodelled") else ({ w with h := { w.h with base := some b } }, "ok")
   | .reset hard => (w.reset hard, "ok")
   | .reinit => w.reinit
   | .attach i => w.attach i
